@@ -16,7 +16,7 @@ RULE = ("1D histograms with 1..40 bins (regular, irregular widths, gapped, edges
         "in place and copying, and with min_frequency thresholds from 0 to beyond the total; gaps, non-integral and non-positive amounts must "
         "be refused (in place: leaving the histogram unchanged); every call is checked: new bins are unions of runs of adjacent old bins, "
         "contents / errors2 the run sums, other axes / totals / missed / source untouched; non-trivial = amount not dividing the bin count or "
-        "irregular / gapped bins or one axis of an asymmetric ND histogram; distinct by hash of (bins, contents, arguments)")
+        "irregular / gapped bins or one axis of an asymmetric ND histogram; distinct by hash of (bins, contents, arguments) Compact float contents (float16 / float32 numbers whose sums are in range but not numbers of the type) must be merged exactly (the type widens).")
 ASSUMPTIONS = ["gaps are generated clearly visible relative to the edge magnitude and also far below it (large offsets), never decided by a tolerance in the oracle (exact edge equality)"]
 
 
